@@ -391,3 +391,60 @@ def values_ensures(c):
 values_c = Contract('ThresholdCounter.values', setup=values_setup, requires=reader_requires, ensures=values_ensures,
                     modifies=lambda c: [('TCCountList', 'elems'), ('TCCountList', 'len')])
 CONTRACTS['ThresholdCounter.values'] = values_c
+
+
+# ---- items(): the list of the (key, tracked count) pairs iteritems() yields; keys(): every tracked key once ----------------------
+ItemPair = HeapClass('TCItemPair', 'record', ncells=2)
+ItemPair.fields.update({'0': VAL, '1': INT})
+ItemPairList = HeapClass('TCItemPairList', 'list', e=REF(ItemPair))
+ALL += [ItemPair, ItemPairList]
+
+
+def items_setup(eng, st, variant=None):
+    eng.pair_list_class = ItemPairList
+    return dict(self=setup_self(eng, st))
+
+
+def items_ensures(c):
+    r = c.result
+    if not isinstance(r, SRef) or r.cls is not ItemPairList:
+        return [('returns a list of pairs', z3.BoolVal(False))]
+    p = parts(c)
+    m, m2 = z3.Ints('m m2')
+    el = c.f(r, 'elems')
+    key = z3.Select(c.arr(ItemPair, '0'), z3.Select(el, m))
+    cnt = z3.Select(c.arr(ItemPair, '1'), z3.Select(el, m))
+    key2 = z3.Select(c.arr(ItemPair, '0'), z3.Select(el, m2))
+    return [('items() = one (key, tracked count) pair per tracked key, each key once', z3.And(
+        c.f(r, 'len') == p['size'], r.t >= c.old.alloc,
+        z3.ForAll([m], z3.Implies(z3.And(0 <= m, m < p['size']), z3.And(
+            z3.Select(p['dom'], key), cnt == z3.Select(p['c0'], z3.Select(p['val'], key))))),
+        z3.ForAll([m, m2], z3.Implies(z3.And(0 <= m, m < m2, m2 < p['size']), key != key2))))]
+
+
+items_c = Contract('ThresholdCounter.items', setup=items_setup, requires=reader_requires, ensures=items_ensures,
+                   modifies=lambda c: [('TCItemPairList', 'elems'), ('TCItemPairList', 'len'), ('TCItemPair', '0'), ('TCItemPair', '1')])
+CONTRACTS['ThresholdCounter.items'] = items_c
+
+
+def keys_setup(eng, st, variant=None):
+    eng.list_class = KeyList
+    return dict(self=setup_self(eng, st))
+
+
+def keys_ensures(c):
+    r = c.result
+    if not isinstance(r, SRef) or r.cls is not KeyList:
+        return [('returns a list of keys', z3.BoolVal(False))]
+    p = parts(c)
+    m, m2 = z3.Ints('m m2')
+    el = c.f(r, 'elems')
+    return [('keys() = every tracked key exactly once', z3.And(
+        c.f(r, 'len') == p['size'], r.t >= c.old.alloc,
+        z3.ForAll([m], z3.Implies(z3.And(0 <= m, m < p['size']), z3.Select(p['dom'], z3.Select(el, m)))),
+        z3.ForAll([m, m2], z3.Implies(z3.And(0 <= m, m < m2, m2 < p['size']), z3.Select(el, m) != z3.Select(el, m2)))))]
+
+
+keys_c = Contract('ThresholdCounter.keys', setup=keys_setup, requires=reader_requires, ensures=keys_ensures,
+                  modifies=lambda c: [('TCKeyList', 'elems'), ('TCKeyList', 'len')])
+CONTRACTS['ThresholdCounter.keys'] = keys_c
